@@ -71,17 +71,31 @@ func (c PolicyCfg) SharedIKCache() bool { return c.CacheIK && c.SharedIK }
 
 // Build returns the SDK policy object.
 func (c PolicyCfg) Build() *appencryption.CryptoPolicy {
-	p := appencryption.NewCryptoPolicy()
+	// what the option functions can express is expressed through them, in the order an application
+	// would write it (caching off first, then the cache it still wants); the rest is set on the struct
+	var opts []appencryption.PolicyOption
+	noCache := !c.CacheSK && !c.CacheIK
+	if noCache {
+		opts = append(opts, appencryption.WithNoCache())
+	}
+	if c.SharedIK {
+		opts = append(opts, appencryption.WithSharedIntermediateKeyCache(c.IKCap))
+	}
+	p := appencryption.NewCryptoPolicy(opts...)
 	p.ExpireKeyAfter = c.Expire
 	p.RevokeCheckInterval = c.Revoke
 	p.CreateDatePrecision = c.Precision
-	p.CacheSystemKeys = c.CacheSK
-	p.CacheIntermediateKeys = c.CacheIK
+	if !noCache {
+		p.CacheSystemKeys = c.CacheSK
+		p.CacheIntermediateKeys = c.CacheIK
+	}
 	p.SystemKeyCacheEvictionPolicy = c.SKPolicy
 	p.IntermediateKeyCacheEvictionPolicy = c.IKPolicy
 	p.SystemKeyCacheMaxSize = c.SKCap
 	p.IntermediateKeyCacheMaxSize = c.IKCap
-	p.SharedIntermediateKeyCache = c.SharedIK
+	if !c.SharedIK {
+		p.SharedIntermediateKeyCache = false
+	}
 	p.CacheSessions = c.SessionCache
 	if c.SessionCache {
 		p.SessionCacheMaxSize = c.SessSize
